@@ -13,14 +13,14 @@ def min_fence(ex, node, args, kwargs):
     f = ex.th.uf("uf!min_fence_length", ex.th.Str, ex.th.Str, Int)
     c, ch = args[0], (args[1] if len(args) > 1 else kwargs.get("fence_char", "`"))
     t = f(ex.z(c), ex.z(ch))
-    ex.pc.append(t >= 3)          # assumed contract of _min_fence_length (bounded function sweep in props/C04)
+    ex.pc.append(t >= 3)          # post[at_least_three] of the contract on _min_fence_length (contracts/renderer_fence.py)
     return ex.wrap(t, "int")
 
 
 contract(Contract(
     target=M + ":MarkdownNormalizer._render_code",
     props=["C04", "C01", "C12"],
-    assumes=['Marko: a code element has one RawText child holding the code; FencedCode has lang / extra, CustomFencedCode fence_char / fence_len', '_min_fence_length returns >= 3 and more than the longest fence run of the content (checked against an independent spec on a bounded function sweep in props/C04, not proved)'],
+    assumes=['Marko: a code element has one RawText child holding the code; FencedCode has lang / extra, CustomFencedCode fence_char / fence_len', '_min_fence_length: result >= 3 and longer than every run its pattern finds are proved in contracts/renderer_fence.py; that the pattern finds every fence-like run at a line start is compared with an independent spec on a bounded function sweep in props/C04, not proved'],
     params={"element": "ref:CodeEl"},
     self_cls="MarkdownNormalizer",
     setup=self_setup,
